@@ -162,6 +162,9 @@ pub enum Case {
     /// a canonical hub envelope around an inner message that was mutated (or replaced by a short blob) *before*
     /// wrapping: the envelope itself is well-formed, only the nested message is not
     Nested { hub: Hub, m1: Mutation, m2: Mutation, short: Option<(u8, u64)> },
+    /// the same message in a well-formed but non-canonical layout: tails in another order, a gap of zero words
+    /// before the tails, equal dynamic fields sharing one tail - in the envelope, in the nested message, or both
+    Layout { hub: Hub, outer: crate::oracle::Layout, inner: crate::oracle::Layout, bare_inner: bool },
 }
 
 fn text() -> impl Strategy<Value = Text> {
@@ -196,6 +199,10 @@ fn inner() -> impl Strategy<Value = Inner> {
 
 fn hub() -> impl Strategy<Value = Hub> {
     (any::<bool>(), text(), inner()).prop_map(|(send, chain, inner)| Hub { send, chain, inner })
+}
+
+fn layout() -> impl Strategy<Value = crate::oracle::Layout> {
+    (prop_oneof![2 => Just(0u8), 3 => 1u8..6], prop_oneof![3 => Just(0u8), 1 => 1u8..4], prop_oneof![4 => Just(false), 1 => Just(true)]).prop_map(|(order, gap, share)| crate::oracle::Layout { order, gap, share })
 }
 
 fn special() -> impl Strategy<Value = Special> {
@@ -375,7 +382,7 @@ impl Property for C10 {
         "C10"
     }
     fn rule(&self) -> &'static str {
-        "proptest: (a) structured hub messages (both wrappers x both inner kinds; ids; addresses/data of length 0,1,20,31,32,33,..300 with pseudo-random, all-zero or all-0xff content; names/symbols/chains from arbitrary Unicode strings, printable ASCII, 31-33 byte strings, long strings of 63..5000 bytes around powers of two (ASCII and two-byte characters), and invalid UTF-8; amounts {0,1,2^64,2^127-1,random}; decimals 0..255; optional bytes absent / empty / present): abi_encode must equal the harness's own head/tail ABI encoder byte for byte and decode back to the same message; (b) byte strings: uniformly random (optionally with a valid type tag in word 0) and valid encodings with one or two mutations (bit flip, word replaced by special values incl. 2^127, 2^128, 2^32, 2^63, 2^64-32.., offset/length +-k, truncation, trailing bytes, dirty padding / high bytes): no panic, abi_decode succeeds iff the harness's strict canonical decoder accepts, same message, re-encoding reproduces the input. thorough additionally runs a libFuzzer campaign with the same oracle in-target. non-trivial = structured messages, and byte strings of >= 32 bytes whose first word is a valid type tag (they reach the struct decoder); distinct by Debug hash (e) well-formed hub envelopes around a nested message that was mutated before wrapping, or replaced by a blob of 0..69 bytes (shorter than the type word, all-zero, random, with a valid type tag): same oracle as (c) - the envelope alone being canonical must not make a nested non-message acceptable, nor crash the decoder"
+        "proptest: (a) structured hub messages (both wrappers x both inner kinds; ids; addresses/data of length 0,1,20,31,32,33,..300 with pseudo-random, all-zero or all-0xff content; names/symbols/chains from arbitrary Unicode strings, printable ASCII, 31-33 byte strings, long strings of 63..5000 bytes around powers of two (ASCII and two-byte characters), and invalid UTF-8; amounts {0,1,2^64,2^127-1,random}; decimals 0..255; optional bytes absent / empty / present): abi_encode must equal the harness's own head/tail ABI encoder byte for byte and decode back to the same message; (b) byte strings: uniformly random (optionally with a valid type tag in word 0) and valid encodings with one or two mutations (bit flip, word replaced by special values incl. 2^127, 2^128, 2^32, 2^63, 2^64-32.., offset/length +-k, truncation, trailing bytes, dirty padding / high bytes): no panic, abi_decode succeeds iff the harness's strict canonical decoder accepts, same message, re-encoding reproduces the input. thorough additionally runs a libFuzzer campaign with the same oracle in-target. non-trivial = structured messages, and byte strings of >= 32 bytes whose first word is a valid type tag (they reach the struct decoder); distinct by Debug hash (e) well-formed hub envelopes around a nested message that was mutated before wrapping, or replaced by a blob of 0..69 bytes (shorter than the type word, all-zero, random, with a valid type tag): same oracle as (c) - the envelope alone being canonical must not make a nested non-message acceptable, nor crash the decoder (f) the same messages in well-formed but non-canonical layouts (tails of the dynamic fields in another order, zero words between head and tails, equal fields sharing one tail - in the envelope, in the nested message, or both): same oracle as (c)"
     }
     fn assumptions(&self) -> Vec<&'static str> {
         vec!["native 64-bit usize (the dependency's overflow behaviour differs on wasm32)"]
@@ -391,6 +398,7 @@ impl Property for C10 {
             6 => (hub(), any::<bool>(), mutation(), prop_oneof![2 => Just(Mutation::None), 1 => mutation()]).prop_map(|(hub, inner_only, m1, m2)| Case::Mutated { hub, inner_only, m1, m2 }),
             3 => (hub(), mutation(), prop_oneof![2 => Just(Mutation::None), 1 => mutation()], prop_oneof![3 => Just(None), 1 => (0u8..70, any::<u64>()).prop_map(Some)])
                 .prop_map(|(hub, m1, m2, short)| Case::Nested { hub, m1, m2, short }),
+            3 => (hub(), layout(), layout(), prop_oneof![3 => Just(false), 1 => Just(true)]).prop_map(|(hub, outer, inner, bare_inner)| Case::Layout { hub, outer, inner, bare_inner }),
         ]
         .boxed()
     }
@@ -488,6 +496,27 @@ impl Property for C10 {
                     AHub::Receive { chain: hub.chain.bytes(), inner }.encode()
                 }
             }
+            Case::Layout { hub, outer, inner, bare_inner } => {
+                let inner_bytes = inner_to_amsg(&hub.inner).encode_layout(*inner);
+                let canonical_inner = inner_bytes == inner_to_amsg(&hub.inner).encode();
+                let b = if *bare_inner {
+                    inner_bytes
+                } else if hub.send {
+                    AHub::Send { chain: hub.chain.bytes(), inner: inner_bytes }.encode_layout(*outer)
+                } else {
+                    AHub::Receive { chain: hub.chain.bytes(), inner: inner_bytes }.encode_layout(*outer)
+                };
+                if b == hub_encode(hub) || (*bare_inner && canonical_inner) {
+                    cx.label("layout_canonical_after_all");
+                } else {
+                    cx.nontrivial();
+                    cx.label(if *bare_inner || !canonical_inner { "layout_noncanonical_nested_message" } else { "layout_noncanonical_envelope" });
+                    if outer.order % 2 == 1 && !*bare_inner {
+                        cx.label("layout_envelope_tails_swapped");
+                    }
+                }
+                b
+            }
             Case::Raw { hex } => {
                 cx.nontrivial();
                 hex::decode(hex).map_err(|e| format!("bad hex in case: {}", e))?
@@ -529,6 +558,14 @@ pub fn seed_inputs() -> Vec<Vec<u8>> {
         }
     }
     out.push(hub_encode(&Hub { send: false, chain: Text::Utf8("".into()), inner: inners[0].clone() }));
+    // well-formed but non-canonical layouts (tails swapped / gap / shared)
+    for (o, g, sh) in [(1u8, 0u8, false), (0, 1, false), (0, 0, true), (3, 2, false)] {
+        let l = crate::oracle::Layout { order: o, gap: g, share: sh };
+        let canon = crate::oracle::Layout { order: 0, gap: 0, share: false };
+        out.push(AHub::Receive { chain: b"ethereum".to_vec(), inner: inner_to_amsg(&inners[0]).encode() }.encode_layout(l));
+        out.push(AHub::Send { chain: b"ethereum".to_vec(), inner: inner_to_amsg(&inners[4]).encode_layout(l) }.encode_layout(canon));
+        out.push(inner_to_amsg(&inners[7]).encode_layout(l));
+    }
     // well-formed envelopes around inner blobs that are not messages
     for n in [0usize, 1, 31, 32, 33, 64] {
         out.push(AHub::Receive { chain: b"ethereum".to_vec(), inner: vec![0u8; n] }.encode());
